@@ -328,13 +328,14 @@ def read_frame(tf):
         "feats": [[s.value, read_feat(x)] for s, x in tf.feat_dict.items()],
         "names": [[s.value, list(nm)] for s, nm in tf.col_names_dict.items()],
         "y": None if tf.y is None else [scal(v) for v in tf.y.tolist()],
+        "ydt": None if tf.y is None else (("float" if tf.y.is_floating_point() else "int"), tf.y.dim()),
     }
 
 
 def canon_obs(o):
     """order-insensitive form of an observation (dict insertion order is not an observation of the property)"""
     return {"len": o["len"], "feats": dict((s, f) for s, f in o["feats"]), "names": dict((s, n) for s, n in o["names"]),
-            "y": o["y"]}
+            "y": o["y"], "ydt": (tuple(o["ydt"]) if o.get("ydt") is not None else None)}
 
 
 # ------------------------------------------------------- reference (lists)
@@ -348,7 +349,8 @@ def ref_of_desc(fr):
             comps = [["", len(f["cells"]), len(f["names"]), f["cells"]]]
         feats.append([f["stype"], {"kind": f["kind"], "inner": f.get("inner", 0), "comps": comps}])
         names.append([f["stype"], list(f["names"])])
-    return {"len": fr["n"], "feats": feats, "names": names, "y": None if fr["y"] is None else list(fr["y"])}
+    return {"len": fr["n"], "feats": feats, "names": names, "y": None if fr["y"] is None else list(fr["y"]),
+            "ydt": None if fr["y"] is None else (fr["ydtype"], 1)}
 
 
 def ref_select(o, ix):
@@ -359,7 +361,8 @@ def ref_select(o, ix):
     for s, f in o["feats"]:
         comps = [[k, len(pos), c, [m[i] for i in pos]] for k, _, c, m in f["comps"]]
         feats.append([s, dict(f, comps=comps)])
-    return {"len": len(pos), "feats": feats, "names": o["names"], "y": None if o["y"] is None else [o["y"][i] for i in pos]}
+    return {"len": len(pos), "feats": feats, "names": o["names"], "y": None if o["y"] is None else [o["y"][i] for i in pos],
+            "ydt": o.get("ydt")}
 
 
 def obs_same(a, b):
@@ -480,7 +483,7 @@ def ref_build(fr):
     y = None if fr["y"] is None else list(fr["y"])
     if y is not None and len(y) != n:
         raise R.RefErr(f"y has {len(y)} rows, frame has {n}")
-    return {"len": n, "feats": feats, "names": names, "y": y}
+    return {"len": n, "feats": feats, "names": names, "y": y, "ydt": None if y is None else (fr["ydtype"], 1)}
 
 
 def _same_struct(fa, fb, axis):
@@ -523,7 +526,8 @@ def ref_cat(parts, dim):
                 comps.append([key, len(rows), ncol, rows])
             feats.append([s, dict(f0, comps=comps)])
         y = None if parts[0]["y"] is None else [v for p in parts for v in p["y"]]
-        return {"len": sum(p["len"] for p in parts), "feats": feats, "names": parts[0]["names"], "y": y}
+        return {"len": sum(p["len"] for p in parts), "feats": feats, "names": parts[0]["names"], "y": y,
+                "ydt": parts[0].get("ydt")}
     if dim != 1:
         raise R.RefErr("unsupported dim")
     ys = [p["y"] for p in parts if p["y"] is not None]
@@ -560,7 +564,8 @@ def ref_cat(parts, dim):
                     rows[i] = rows[i] + cp[3][i]
             comps.append([key, n, ncol, rows])
         feats.append([s, dict(f0, comps=comps)])
-    return {"len": n, "feats": feats, "names": [[s, names[s]] for s in order], "y": ys[0] if ys else None}
+    return {"len": n, "feats": feats, "names": [[s, names[s]] for s in order], "y": ys[0] if ys else None,
+            "ydt": next((p["ydt"] for p in parts if p["y"] is not None), None)}
 
 
 def ref_ev(e):
